@@ -9,7 +9,7 @@ package criteria_splitting
 //@      let p = floor(real(n) * c.Ratio) in (p < c.Min ? c.Min : (p > c.Max ? c.Max : p))
 
 //@ func (*CriteriaSplitCondition).validate
-//@   property C15 C16 C20
+//@   property C15 C16 C20 C07 C09
 //@   panics_iff [ratio_or_bounds] !(0.0 <= c.Ratio && c.Ratio <= 1.0) || c.Max < c.Min
 
 //@ func (*CriteriaSplitCondition).SplitCriteriaByOrdering
@@ -30,7 +30,7 @@ package criteria_splitting
 
 // Parse: every bound is what the request says; an absent max means no upper bound, an absent min / ratio means 0
 //@ func Parse
-//@   property C15 C16 C20
+//@   property C15 C16 C20 C07 C09
 //@   ensures [as_requested_defaults_for_absent_keys] fresh(result)
 //@             && result.Max == (decoded_has(*props, "Max") ? decoded_int(*props, "Max") : 9223372036854775807)
 //@             && result.Min == (decoded_has(*props, "Min") ? decoded_int(*props, "Min") : 0)
